@@ -238,3 +238,37 @@ func ruleZeroConcurrency(p *Prog, l *Ledger, tier string) {
 		l.Prove(rule, "", rule, "", fmt.Sprintf("no go/select statement in %d functions, unsafe not imported", len(p.LibFns)))
 	}
 }
+
+// ruleNoSharedStateIn: R5.2 restricted to the functions of a scope (the writers of a format): what a writer emits
+// must be a function of the cue list it is given; a writer that stores into package-level memory makes a later
+// write (of another list, or of the same one) come out differently.
+func ruleNoSharedStateIn(scope func(*Prog, *Ledger, string) []*ssa.Function, min int) func(p *Prog, l *Ledger, tier string) {
+	return func(p *Prog, l *Ledger, tier string) {
+		const rule = "E5.R5.2w-writer-no-shared-state"
+		e := ComputeEffects(p)
+		n := 0
+		for _, fn := range scope(p, l, rule) {
+			if fnPkg(fn) != p.LibSSA {
+				continue
+			}
+			name := FnName(fn)
+			sum := e.Sum[fn]
+			if sum == nil {
+				continue
+			}
+			n++
+			bad := 0
+			for _, ef := range sortedEffects(sum.Effects) {
+				base := rootBase(ef.Root)
+				if strings.HasPrefix(base, "G:") {
+					bad++
+					l.Fail(rule, name, rule+"|"+name+"|"+base+"|"+ef.Loc, p.Pos(ef.Pos), name+" (reached from a writer) stores into package-level memory: "+effDesc(p, ef)+": the next document written in this process depends on this one")
+				}
+			}
+			if bad == 0 {
+				l.Prove(rule, name, rule+"|"+name, p.Pos(fn.Pos()), "no store into package-level memory")
+			}
+		}
+		l.Min(rule, n, min)
+	}
+}
